@@ -1,3 +1,5 @@
 import CModel.Spice
+import CModel.Ledger
 import CModel.DriverUtil
 import CModel.SpiceDriver
+import CModel.LedgerDriver
